@@ -2,7 +2,7 @@ SPECIFICATION Spec
 CONSTANTS
   Kind = "bc"
   Cap = 2
-  MaxVal = 4
+  MaxVal = 3
   Ops = {"send", "try_send", "recv", "try_recv"}
 INVARIANT InvBc
 CHECK_DEADLOCK FALSE
